@@ -109,23 +109,128 @@ def check_iof(case):
     return bad, 1
 
 
-CHECK = dict(findpeaks=check_findpeaks, merge=check_merge, sma=check_sma, iof=check_iof)
+def _peak_with_wave(w, n_buffer=None, t0=100):
+    p = np.zeros(1, dtype=strax.peak_dtype(n_channels=2, n_sum_wv_samples=n_buffer or 8))
+    p[0]["time"], p[0]["length"], p[0]["dt"] = t0, len(w), 1
+    p[0]["data"][: len(w)] = w
+    p[0]["area"] = sum(w)
+    return p
+
+
+def _real_cuts(splitter, p, args_options):
+    """Children made by the real PeakSplitter._split_peaks, as cut indices relative to the parent (None: it raised)."""
+    import strax.processing.peak_splitting as ps
+    is_split = np.zeros(len(p), dtype=bool)
+    try:
+        new = splitter._split_peaks(split_finder=splitter.find_split_points, peaks=p, is_split=is_split, orig_dt=1, min_area=0,
+                                    args_options=args_options, result_dtype=p.dtype)
+    except Exception as e:  # noqa
+        return None, repr(e)[:120]
+    kids = [(int(x["time"]) - int(p[0]["time"]), int(x["length"])) for x in new]
+    return kids, None
+
+
+def check_split(case):
+    """Local-minimum splitting: the real children = the transcription's cuts (and hence tile the parent); natural-breaks
+    splitting: recorded for the P-level judgement by TLC (TilesParent)."""
+    import strax.processing.peak_splitting as ps
+    bad = []
+    w = case["w"]
+    obs = []
+    for (mh, mr), cuts in zip(case["params"], case["cuts"]):
+        p = _peak_with_wave([float(x) for x in w])
+        kids, err = _real_cuts(ps.LocalMinimumSplitter(), p, (float(mh), float(mr)))
+        starts = [0] + list(cuts[:-1])
+        want = [(a, b - a) for a, b in zip(starts, cuts)]
+        if err or kids != want:
+            bad.append((f"split:local_minimum:{w}:min_height={mh}:min_ratio={mr}",
+                        f"LocalMinimumSplitter on waveform {w} (min_height={mh}, min_ratio={mr}) gives children (start, length) {kids if not err else err}, "
+                        f"definition {want}"))
+    for thr in (0.1, 0.4):
+        for norm, low in ((False, False), (True, False), (False, True)):
+            p = _peak_with_wave([float(x) for x in w])
+            kids, err = _real_cuts(ps.NaturalBreaksSplitter(), p, (np.array([thr]), norm, low, 0))
+            obs.append(dict(alg="natural_breaks", w=w, thr=thr, normalize=norm, split_low=low, n=len(w),
+                            kids=[list(k) for k in kids] if kids is not None else [], err=err or ""))
+    return bad, 1, obs
+
+
+def check_sumwf(case):
+    bad = []
+    recs = case["recs"]
+    S = len(recs[0])
+    r = np.zeros(2, dtype=strax.record_dtype(S))
+    for ch in (0, 1):
+        r[ch]["time"], r[ch]["length"], r[ch]["dt"], r[ch]["channel"] = 0, S, 1, ch
+        r[ch]["data"][:S] = recs[ch]
+    hits = strax.find_hits(r, min_amplitude=1)
+    hits = strax.sort_by_time(hits)
+    rlinks = strax.record_links(r)
+    to_pe = np.array([1.0, 2.0])
+    for (pt, pl), outs in zip(case["windows"], case["out"]):
+        for nb, exp in zip(case["nbs"], outs):
+            p = np.zeros(1, dtype=strax.peak_dtype(n_channels=2, n_sum_wv_samples=nb))
+            p[0]["time"], p[0]["length"], p[0]["dt"] = pt, pl, 1
+            hh = hits[np.argsort(hits["record_i"], kind="stable")] if len(hits) else hits
+            if not len(hits):
+                continue
+            try:
+                strax.sum_waveform(p, hits, r, rlinks, to_pe)
+                got = dict(area=float(p[0]["area"]), apc=[float(x) for x in p[0]["area_per_channel"]], dt=int(p[0]["dt"]), length=int(p[0]["length"]),
+                           data=[float(x) for x in p[0]["data"][: p[0]["length"]]])
+            except Exception as e:  # noqa
+                got = repr(e)[:150]
+            want = dict(area=float(exp["area"]), apc=[float(x) for x in lst(exp["apc"])], dt=exp["dt"], length=exp["length"],
+                        data=[float(x) for x in lst(exp["data"])] if exp["length"] else [])
+            if got != want:
+                bad.append((f"sum_waveform:{recs}:peak={pt},{pl}:buffer={nb}", f"sum_waveform on records {recs} (to_pe 1, 2), peak [{pt}, {pt + pl}), buffer of {nb} "
+                            f"samples gives {got}, definition {want}"))
+            elif isinstance(got, dict) and abs(sum(got["data"]) - got["area"]) > 1e-6:
+                # the property: the stored waveform integrates to the area, also after down-sampling
+                bad.append((f"sum_waveform:downsampling-loses-area:{recs}:peak={pt},{pl}:buffer={nb}",
+                            f"records {recs}, peak [{pt}, {pt + pl}), buffer {nb}: stored waveform {got['data']} (dt {got['dt']}) integrates to {sum(got['data'])}, "
+                            f"area is {got['area']} (the trailing {pl % got['dt']} sample(s) do not fill a down-sampling group and are dropped)"))
+    return bad, 1
+
+
+def check_widths(case):
+    bad = []
+    w = case["w"]
+    p = _peak_with_wave([float(x) for x in w])
+    _, width, decile = strax.compute_widths(p)
+    got_w = [float(x) for x in width[0]]
+    got_d = [float(x) for x in decile[0]]
+    want_w = [float(Fraction(n, d)) for n, d in lst(case["width"])]
+    want_d = [float(Fraction(n, d)) for n, d in lst(case["decile"])]
+    if not np.allclose(got_w, want_w, atol=1e-3) or not np.allclose(got_d, want_d, atol=1e-3):
+        bad.append((f"compute_widths:{w}", f"compute_widths({w}): width {[round(x, 3) for x in got_w]} / definition {[round(x, 3) for x in want_w]}; "
+                    f"area_decile_from_midpoint {[round(x, 3) for x in got_d]} / definition {[round(x, 3) for x in want_d]}"))
+    return bad, 1
+
+
+CHECK = dict(findpeaks=check_findpeaks, merge=check_merge, sma=check_sma, iof=check_iof, split=check_split, sumwf=check_sumwf,
+             widths=check_widths)
 
 
 def _job(arg):
     kind, cases = arg
-    out, n = [], 0
+    out, n, obs = [], 0, []
     for c in cases:
-        b, nt = CHECK[kind](c)
-        out += b
-        n += nt
-    return out, n
+        res = CHECK[kind](c)
+        out += res[0]
+        n += res[1]
+        if len(res) > 2:
+            obs += res[2]
+    return out, n, obs
 
 
 def run(chk):
     quick = chk.tier == "quick"
     scopes = [dict(G=4 if quick else 5, NH=3, Kind="findpeaks"), dict(G=5 if quick else 6, NH=3 if quick else 4, Kind="merge"),
-              dict(G=0, NH=5 if quick else 7, Kind="sma"), dict(G=0, NH=5 if quick else 6, Kind="iof")]
+              dict(G=0, NH=5 if quick else 7, Kind="sma"), dict(G=0, NH=5 if quick else 6, Kind="iof"),
+              dict(G=0, NH=5 if quick else 7, Kind="split"), dict(G=0, NH=4 if quick else 5, Kind="sumwf"),
+              dict(G=0, NH=5 if quick else 6, Kind="widths")]
+    split_obs = []
     for sc in scopes:
         r, cases = V.tlc_cases("Peaks", sc, ["Laws", "Emit"], timeout=3000, workers=1)
         chk.add_tlc(r, f"Peaks {sc}")
@@ -141,8 +246,9 @@ def run(chk):
         CHECK[kind](cases[0])
         res = V.pmap(_job, [(kind, ch) for ch in V.chunks_of(cases, V.NCPU * 2)])
         nt = 0
-        for bad, n in res:
+        for bad, n, obs in res:
             nt += n
+            split_obs += obs
             for sig, text in bad:
                 chk.violation("C19:" + sig, text, dict(kind=kind, signature=sig))
         chk.evaluations += len(cases)
@@ -150,13 +256,35 @@ def run(chk):
         for i in range(nt):
             chk.nontrivial.add(f"{kind}-{i}")
         chk.sample(dict(kind=kind, case=cases[len(cases) // 3]))
+    # natural-breaks splits: the P-level (children tile the parent, no exception) judged by TLC on the recorded observations
+    if split_obs:
+        import os
+        d = V.stage_spec(["Peaks"], {"Peaks.cfg": V.cfg_text(dict(G=0, NH=1, Kind="splitobs"), ["Laws"])})
+        with open(os.path.join(d, "obs.json"), "w") as f:
+            json.dump([dict(n=o["n"], kids=o["kids"], err=o["err"]) for o in split_obs], f)
+        r = V.run_tlc(d, "Peaks", "Peaks.cfg", workers=1, timeout=1800, env={"TRACE_FILE": os.path.join(d, "obs.json")}, args=["-continue"])
+        chk.add_tlc(r, f"P-level (TilesParent) on {len(split_obs)} observed natural-breaks splits")
+        if not (r.ok or r.violated):
+            raise V.MachineryError("Peaks splitobs failed: " + r.out[-2000:])
+        import re
+        for k in sorted({int(m.group(1)) for m in re.finditer(r"c = (\d+)", r.out)}):
+            o = split_obs[k - 1]
+            what = "raises" if o["err"] else "children-do-not-tile-the-parent"
+            chk.violation(f"C19:split:natural_breaks:{what}:{o['w']}:thr={o['thr']}:normalize={o['normalize']}:split_low={o['split_low']}",
+                          f"NaturalBreaksSplitter on waveform {o['w']} (threshold {o['thr']}, normalize={o['normalize']}, split_low={o['split_low']}): "
+                          + (f"raised {o['err']}" if o["err"] else f"children (start, length) {o['kids']} do not tile the parent's {o['n']} samples"),
+                          dict(kind="split", signature=str(o)))
+        chk.traces += len(split_obs)
+        chk.extra["natural_breaks_splits_observed"] = len([o for o in split_obs if o["kids"]])
     chk.exhaustive = not quick
     chk.rule = ("every sorted hit list of <= 3 hits (time, length, channel, area) x five (gap threshold, extensions, max duration) settings x "
                 "with / without area and channel cuts; every disjoint peak list of <= 4 peaks x every merge window; every waveform of <= 7 "
-                "samples over {0..3} x wing 0..3 for the moving average and x seven area fractions for the fraction index; non-trivial = more "
-                "than one hit / sample")
-    chk.assumptions += ["not covered by the specification: split_peaks, natural_breaks_gof, highest_density_region, down-sampling of summed "
-                        "waveforms (sum_waveform)", "floats compared with tolerance 1e-4 (float32 fields) / 1e-9 (float64)"]
+                "samples over {0..3} x wing 0..3 for the moving average, x seven area fractions for the fraction index, x eleven widths / deciles, "
+                "x four (min_height, min_ratio) settings for local-minimum splitting and x six (threshold, normalize, split_low) settings for "
+                "natural-breaks splitting; every pair of short records (two channels) x every peak window x three buffer sizes for the summed "
+                "waveform and its down-sampling; non-trivial = more than one hit / sample")
+    chk.assumptions += ["not covered by the specification: the value of natural_breaks_gof (float computation; only the tiling of its splits is "
+                        "decided), highest_density_region", "floats compared with tolerance 1e-4 (float32 fields) / 1e-9 (float64)"]
 
 
 def replay(chk, path):
